@@ -1,61 +1,68 @@
 --------------------------- MODULE RegistryProof ---------------------------
 (***************************************************************************)
 (* TLAPS proof that the lock / body / unlock discipline of Registry.tla    *)
-(* keeps mutual exclusion for ANY set of processes and for ever (the TLC   *)
-(* runs cover 3 processes x 2 operations; Apalache the inductive step for  *)
-(* 4 processes).  The registry content is abstracted to a version counter. *)
+(* (readers/writer form) keeps a writer alone in its critical section for  *)
+(* ANY set of processes and for ever (the TLC runs cover 3 processes x 2   *)
+(* operations; Apalache the inductive step for 4 processes).  The registry *)
+(* content is abstracted away.                                             *)
 (***************************************************************************)
 EXTENDS Integers, TLAPS
 
 CONSTANT Procs
 ASSUME ProcsAssm == 0 \notin Procs
 
-VARIABLES lock, pc, version
-vars == <<lock, pc, version>>
+VARIABLES writer, readers, pc, wr
+vars == <<writer, readers, pc, wr>>
 
-Init == /\ lock = 0 /\ pc = [p \in Procs |-> "idle"] /\ version = 0
+Init == /\ writer = 0 /\ readers = {} /\ pc = [p \in Procs |-> "idle"] /\ wr = [p \in Procs |-> FALSE]
 
-Lock(p) == /\ pc[p] = "idle" /\ lock = 0
-           /\ lock' = p /\ pc' = [pc EXCEPT ![p] = "locked"] /\ UNCHANGED version
-Body(p) == /\ pc[p] = "locked" /\ lock = p
-           /\ pc' = [pc EXCEPT ![p] = "done"]
-           /\ (version' = version + 1 \/ UNCHANGED version)
-           /\ UNCHANGED lock
-Unlock(p) == /\ pc[p] = "done" /\ lock = p
-             /\ lock' = 0 /\ pc' = [pc EXCEPT ![p] = "idle"] /\ UNCHANGED version
+LockW(p) == /\ pc[p] = "idle" /\ writer = 0 /\ readers = {}
+            /\ writer' = p /\ wr' = [wr EXCEPT ![p] = TRUE] /\ pc' = [pc EXCEPT ![p] = "locked"]
+            /\ UNCHANGED readers
+LockR(p) == /\ pc[p] = "idle" /\ writer = 0
+            /\ readers' = readers \cup {p} /\ wr' = [wr EXCEPT ![p] = FALSE] /\ pc' = [pc EXCEPT ![p] = "locked"]
+            /\ UNCHANGED writer
+Body(p) == /\ pc[p] = "locked" /\ pc' = [pc EXCEPT ![p] = "done"] /\ UNCHANGED <<writer, readers, wr>>
+Unlock(p) == /\ pc[p] = "done"
+             /\ IF wr[p] THEN writer' = 0 /\ UNCHANGED readers ELSE readers' = readers \ {p} /\ UNCHANGED writer
+             /\ pc' = [pc EXCEPT ![p] = "idle"] /\ UNCHANGED wr
 
-Next == \E p \in Procs : Lock(p) \/ Body(p) \/ Unlock(p)
+Next == \E p \in Procs : LockW(p) \/ LockR(p) \/ Body(p) \/ Unlock(p)
 Spec == Init /\ [][Next]_vars
 
-TypeOK == /\ lock \in Procs \cup {0}
-          /\ pc \in [Procs -> {"idle", "locked", "done"}]
+TypeOK == /\ writer \in Procs \cup {0} /\ readers \subseteq Procs
+          /\ pc \in [Procs -> {"idle", "locked", "done"}] /\ wr \in [Procs -> BOOLEAN]
 
-MutualExclusion == \A p, q \in Procs : (pc[p] # "idle" /\ pc[q] # "idle") => p = q
+WriterExclusive == \A p, q \in Procs : (pc[p] # "idle" /\ wr[p] /\ pc[q] # "idle") => p = q
 
 IndInv == /\ TypeOK
-          /\ \A p \in Procs : (pc[p] # "idle") <=> (lock = p)
+          /\ \A p \in Procs : (pc[p] # "idle" /\ wr[p]) <=> (writer = p)
+          /\ \A p \in Procs : (pc[p] # "idle" /\ ~wr[p]) <=> (p \in readers)
+          /\ (writer # 0 => readers = {})
 
-LEMMA IndImpliesME == IndInv => MutualExclusion
-  BY DEF IndInv, MutualExclusion
+LEMMA IndImpliesWE == IndInv => WriterExclusive
+  BY ProcsAssm DEF IndInv, WriterExclusive, TypeOK
 
-THEOREM Safety == Spec => []MutualExclusion
+THEOREM Safety == Spec => []WriterExclusive
 <1>1. Init => IndInv
   BY ProcsAssm DEF Init, IndInv, TypeOK
 <1>2. IndInv /\ [Next]_vars => IndInv'
   <2> SUFFICES ASSUME IndInv, [Next]_vars PROVE IndInv'
     OBVIOUS
-  <2>1. ASSUME NEW p \in Procs, Lock(p) PROVE IndInv'
-    BY <2>1, ProcsAssm DEF Lock, IndInv, TypeOK
-  <2>2. ASSUME NEW p \in Procs, Body(p) PROVE IndInv'
-    BY <2>2, ProcsAssm DEF Body, IndInv, TypeOK
-  <2>3. ASSUME NEW p \in Procs, Unlock(p) PROVE IndInv'
-    BY <2>3, ProcsAssm DEF Unlock, IndInv, TypeOK
-  <2>4. CASE UNCHANGED vars
-    BY <2>4 DEF vars, IndInv, TypeOK
-  <2>5. QED
-    BY <2>1, <2>2, <2>3, <2>4 DEF Next
-<1>3. IndInv => MutualExclusion
-  BY IndImpliesME
+  <2>1. ASSUME NEW p \in Procs, LockW(p) PROVE IndInv'
+    BY <2>1, ProcsAssm DEF LockW, IndInv, TypeOK
+  <2>2. ASSUME NEW p \in Procs, LockR(p) PROVE IndInv'
+    BY <2>2, ProcsAssm DEF LockR, IndInv, TypeOK
+  <2>3. ASSUME NEW p \in Procs, Body(p) PROVE IndInv'
+    BY <2>3, ProcsAssm DEF Body, IndInv, TypeOK
+  <2>4. ASSUME NEW p \in Procs, Unlock(p) PROVE IndInv'
+    BY <2>4, ProcsAssm DEF Unlock, IndInv, TypeOK
+  <2>5. CASE UNCHANGED vars
+    BY <2>5 DEF vars, IndInv, TypeOK
+  <2>6. QED
+    BY <2>1, <2>2, <2>3, <2>4, <2>5 DEF Next
+<1>3. IndInv => WriterExclusive
+  BY IndImpliesWE
 <1>4. QED
   BY <1>1, <1>2, <1>3, PTL DEF Spec
 =============================================================================
